@@ -305,6 +305,13 @@ Theorem C10_history_memo_process_refuted :
 Proof. exact memo_refuted_l. Qed.
 Print Assumptions C10_history_memo_process_refuted.
 
+(* ---- frame: a class whose criteria reject the feature does not influence its resolution (this is what lets the
+        correspondence fold every class outside the generated universe into one non-matching background record) ---- *)
+Theorem C10_nonmatching_class_irrelevant : forall e u rq c, criteria rq c = false -> precheck e u rq = None ->
+  resolve e (c :: u) rq = resolve e u rq.
+Proof. exact resolve_frame_l. Qed.
+Print Assumptions C10_nonmatching_class_irrelevant.
+
 (* ---- non-vacuity: two groups serve the name "r", selected by the CONTEXT option unit; a third reads a GROUP option ---- *)
 Definition ex_xc i cr := {| x_cid := i; x_supers := []; x_crit := cr; x_dom := "default_domain"; x_rule := None; x_idx := None |}.
 Definition ex_xu := [ex_xc 1 (CAnd (CNames ["r"]) (CCtx "unit" "c")); ex_xc 2 (CAnd (CNames ["r"]) (CCtx "unit" "k"));
